@@ -126,10 +126,15 @@ PROPS = {
         "families": [
             {"name": "c15", "config": "fv-t1-o200", "features": "fast_verify,verbose",
              "env": {"HBS_LMS_THREADS": "1", "HBS_LMS_MAX_HASH_OPTIMIZATIONS": "200"}},
-            {"name": "c15", "config": "fv-t4-o64", "features": "fast_verify,verbose",
-             "env": {"HBS_LMS_THREADS": "4", "HBS_LMS_MAX_HASH_OPTIMIZATIONS": "64"}},
+            # fewer optimisation rounds than threads: a per-thread budget of zero
+            {"name": "c15", "config": "fv-t4-o3", "features": "fast_verify,verbose",
+             "env": {"HBS_LMS_THREADS": "4", "HBS_LMS_MAX_HASH_OPTIMIZATIONS": "3"}},
         ],
         "thorough_families": [
+            {"name": "c15", "config": "fv-t4-o64", "features": "fast_verify,verbose",
+             "env": {"HBS_LMS_THREADS": "4", "HBS_LMS_MAX_HASH_OPTIMIZATIONS": "64"}},
+            {"name": "c15", "config": "fv-t1-o0", "features": "fast_verify,verbose",
+             "env": {"HBS_LMS_THREADS": "1", "HBS_LMS_MAX_HASH_OPTIMIZATIONS": "0"}},
             {"name": "c15", "config": "fv-t16-o1", "features": "fast_verify,verbose",
              "env": {"HBS_LMS_THREADS": "16", "HBS_LMS_MAX_HASH_OPTIMIZATIONS": "16"}},
             {"name": "c15", "config": "fv-t2-o10000", "features": "fast_verify,verbose",
